@@ -891,7 +891,10 @@ Section Sim.
   Proof.
     intros d' id params body scope this args st [IHa IHc] Hf Hthis Hargs oi Hoi.
     apply closed_VLam in Hf. destruct Hf as (Hn & Hfv & Hsc).
-    set (self := match lam_name st id with Some n => [(n, this)] | None => [] end).
+    set (self := match lam_name st id with
+                 | Some n => match lookup_frame scope n with Some _ => [] | None => [(n, this)] end
+                 | None => []
+                 end).
     set (inp := match oi with Some i => [("inputs", i)] | None => [] end).
     destruct (bind_params params 0 args (inp ++ self)) as [local|] eqn:Eb.
     2:{ exists Panic, st. split; [|split; [apply store_le_refl|intros ? Hq; discriminate Hq]].
@@ -900,7 +903,8 @@ Section Sim.
     assert (Hacc : closed_frame st (inp ++ self)).
     { apply Forall_app; split.
       - unfold inp. destruct oi; [constructor; [apply Hoi; reflexivity|constructor]|constructor].
-      - unfold self. destruct (lam_name st id); [constructor; [exact Hthis|constructor]|constructor]. }
+      - unfold self. destruct (lam_name st id) as [nm|]; [|constructor].
+        destruct (lookup_frame scope nm); [constructor|constructor; [exact Hthis|constructor]]. }
     assert (Hlocal : closed_frame st local) by (eapply bind_params_closed; eauto).
     assert (Hok : st_ok st Hh oi).
     { split; [discriminate| |exact Hoi]. unfold Hh. constructor; [exact Hlocal|].
@@ -911,11 +915,14 @@ Section Sim.
       specialize (Hbp p Hp). destruct (lookup_frame local (arg_name p)); [discriminate|congruence]. }
     assert (Hcf : covered Hh (free_vars body (map arg_name params))).
     { intros x Hx. unfold Hh. cbn [lookup]. destruct (lookup_frame local x) eqn:El; [discriminate|].
-      destruct (Hfv x Hx) as [Hs|Hs].
+      assert (Hcase : lookup_frame scope x <> None \/ (lookup_frame scope x = None /\ lam_name st id = Some x)).
+      { destruct (Hfv x Hx) as [Hs|Hs]; [left; exact Hs|].
+        destruct (lookup_frame scope x) eqn:Esc; [left; discriminate|right; split; [reflexivity|exact Hs]]. }
+      destruct Hcase as [Hs|[Esc Hs]].
       - destruct scope as [|kv sc]; [exfalso; apply Hs; reflexivity|]. cbn [lookup].
         destruct (lookup_frame (kv :: sc) x); [discriminate|congruence].
       - exfalso. assert (Hl : lookup_frame (inp ++ self) x <> None).
-        { unfold self. rewrite Hs. clear. induction inp as [|[y v] r IH]; cbn [app lookup_frame].
+        { unfold self. rewrite Hs, Esc. clear. induction inp as [|[y v] r IH]; cbn [app lookup_frame].
           - rewrite String.eqb_refl. discriminate.
           - destruct (String.eqb x y); [discriminate|exact IH]. }
         apply Hkeep in Hl. congruence. }
